@@ -1,0 +1,5 @@
+//go:build !verif
+
+package journal
+
+func verifWrap(fs []func(*Day) error) []func(*Day) error { return fs }
